@@ -154,8 +154,8 @@ func panicSite(stack string) string {
 		if !seenPanic {
 			continue
 		}
-		if strings.Contains(l, "nodeenrollment") || strings.Contains(l, "go-kms-wrapping") {
-			if i := strings.Index(l, "("); i > 0 && !strings.HasPrefix(l, "/") {
+		if (strings.Contains(l, "nodeenrollment") || strings.Contains(l, "go-kms-wrapping")) && !strings.HasPrefix(l, "/") && strings.HasSuffix(l, ")") {
+			if i := strings.LastIndex(l, "("); i > 0 {
 				f := l[:i]
 				if j := strings.LastIndex(f, "/"); j >= 0 {
 					f = f[j+1:]
